@@ -9,7 +9,7 @@ use uuid::Uuid;
 pub type TaskProps = BTreeMap<String, String>;
 pub type Tasks = BTreeMap<Uuid, TaskProps>;
 
-#[derive(Clone, Debug, PartialEq, Eq, Hash, PartialOrd, Ord)]
+#[derive(Clone, Debug, PartialEq, Eq, Hash, PartialOrd, Ord, serde::Serialize, serde::Deserialize)]
 pub enum MOp {
     Create(Uuid),
     Delete(Uuid),
